@@ -127,6 +127,15 @@ def _shared_prior_named():
 
 
 CATALOGUE.update({"SharedPriorObject": _shared_prior, "SharedPriorObject_named": _shared_prior_named})
+# batch size equal to the size of the trailing dimension (tasks / mixtures): a per-task vector must not be lined up with the batch
+CATALOGUE.update(
+    {
+        "IndexKernel_batch_eq_tasks": lambda: K.IndexKernel(num_tasks=3, rank=1, batch_shape=torch.Size([3])),
+        "MultitaskGaussianLikelihood_batch_eq_tasks": lambda: L.MultitaskGaussianLikelihood(num_tasks=2, rank=0, batch_shape=torch.Size([2])),
+        "SpectralMixtureKernel_batch_eq_mixtures": lambda: K.SpectralMixtureKernel(num_mixtures=2, ard_num_dims=1, batch_shape=torch.Size([2])),
+        "RBFKernel_ard_batch_eq_dims": lambda: K.RBFKernel(ard_num_dims=2, batch_shape=torch.Size([2])),
+    }
+)
 
 
 def _named(module, specs):
@@ -239,7 +248,7 @@ def generate(rng, tier, index):
 def gen_op(rng, k):
     p = rng.randrange(16)
     if k == "set":
-        return {"op": k, "p": p, "vk": rng.choice(["interior", "interior", "near_lower", "near_upper", "at_lower", "at_upper", "huge", "tiny"]), "u": rng.random(), "as_float": rng.random() < 0.3, "seed": rng.randrange(1 << 30)}
+        return {"op": k, "p": p, "vk": rng.choice(["interior", "interior", "near_lower", "near_upper", "at_lower", "at_upper", "huge", "tiny"]), "u": rng.random(), "as_float": rng.random() < 0.3, "seed": rng.randrange(1 << 30), "drop_lead": rng.choice([0, 0, 0, 1, 2])}
     if k == "set_bad":
         return {"op": k, "p": p, "bk": rng.choice(["below", "above", "nan", "shape", "inf", "neg_inf"]), "u": rng.random()}
     if k in ("init_pub", "init_raw"):
@@ -530,6 +539,14 @@ def execute(history):
                 vk = op.get("vk", "interior")
                 v, at_bound = value_for(c, shape, dtype, vk, op["u"], op.get("seed", 1))
                 arg = v
+                drop = min(int(op.get("drop_lead", 0)), max(len(shape) - 1, 0))
+                if k == "set" and drop and c.lower_bound.numel() == 1 and c.upper_bound.numel() == 1 and not op.get("as_float"):
+                    # a value without the leading (batch) dimensions - e.g. one number per task for a batch of task vectors:
+                    # it broadcasts along the trailing dimensions, like any tensor assignment
+                    low, at_bound = value_for(c, shape[drop:], dtype, vk, op["u"], op.get("seed", 1))
+                    arg = low
+                    v = low.expand(shape).clone()
+                    out.stats["probe:assignment_broadcast_over_leading_dims"] += 1
                 if op.get("as_float") and v.numel() >= 1 and c.lower_bound.numel() == 1 and c.upper_bound.numel() == 1:
                     arg = float(v.reshape(-1)[0])
                     v = torch.full(shape, arg, dtype=dtype)
